@@ -47,15 +47,39 @@ fn connack_pkt(ver: Ver) -> Pkt {
 
 /// bring a fresh object to (status, persistent, offline); returns log of the prefix
 fn build_state(role: Role, idw: usize, lver: LVer, as_client: bool, st: Status, persistent: bool, offline: bool) -> Option<(Box<dyn Conn>, Vec<String>)> {
+    build_state_p(role, idw, lver, as_client, st, persistent, offline, false).map(|(c, l, _)| (c, l))
+}
+/// ids the priming leaves behind: inbound QoS 2 (handled), inbound QoS 1, own stored QoS 1, own QoS 2 with PUBREL stored
+#[derive(Clone, Copy, Debug, PartialEq)]
+struct PrimedIds {
+    in_q2: u32,
+    in_q1: u32,
+    own_q1: u32,
+    own_q2: u32,
+    /// own QoS 2 id whose PUBREC has arrived and whose PUBREL has not been sent yet
+    own_q2_recd: u32,
+}
+/// `primed`: while the (previous or current) connection is established, leave session state behind that a
+/// refused call could disturb: a handled inbound QoS 2 id, an unacknowledged inbound QoS 1 id, a stored own
+/// QoS 1 PUBLISH and a stored own PUBREL. Only meaningful when that state survives into `st` (st == Cd, or persistent).
+#[allow(clippy::too_many_arguments)]
+fn build_state_p(role: Role, idw: usize, lver: LVer, as_client: bool, st: Status, persistent: bool, offline: bool, primed: bool) -> Option<(Box<dyn Conn>, Vec<String>, Option<PrimedIds>)> {
+    if primed && !(st == Status::Cd || persistent) {
+        return None;
+    }
+    if primed && lver.to_ver().is_none() {
+        return None;
+    }
     let mut c = new_conn(role, idw, lver);
     let mut log = Vec::new();
+    let mut ids = None;
     if offline {
         c.set_opt(Opt::OfflinePublish, true).ok()?;
         log.push("set_offline_publish(true)".to_string());
     }
     let Some(ver) = lver.to_ver() else {
         // Undetermined: only the initial (disconnected) state exists
-        return if st == Status::D && !persistent { Some((c, log)) } else { None };
+        return if st == Status::D && !persistent { Some((c, log, None)) } else { None };
     };
     let feed = |c: &mut Box<dyn Conn>, p: &Pkt, log: &mut Vec<String>| -> Option<()> {
         let b = rc::encode(p, idw);
@@ -89,19 +113,52 @@ fn build_state(role: Role, idw: usize, lver: LVer, as_client: bool, st: Status, 
         }
         Some(())
     };
+    let prime = |c: &mut Box<dyn Conn>, log: &mut Vec<String>| -> Option<PrimedIds> {
+        feed(c, &Pkt::Publish { ver, dup: false, qos: 2, retain: false, topic: b"p".to_vec(), id: Some(3), props: vec![], payload: vec![] }, log)?;
+        feed(c, &Pkt::Publish { ver, dup: false, qos: 1, retain: false, topic: b"p".to_vec(), id: Some(4), props: vec![], payload: vec![] }, log)?;
+        let a = c.acquire().ok()?.ok()?;
+        send(c, &packet_for(Kind::Publish, ver, 1, a), log)?;
+        let b = c.acquire().ok()?.ok()?;
+        send(c, &packet_for(Kind::Publish, ver, 2, b), log)?;
+        feed(c, &Pkt::Ack { ver, kind: AckKind::Pubrec, id: b, code: None, props: None }, log)?;
+        send(c, &Pkt::Ack { ver, kind: AckKind::Pubrel, id: b, code: None, props: None }, log)?;
+        let b2 = c.acquire().ok()?.ok()?;
+        send(c, &packet_for(Kind::Publish, ver, 2, b2), log)?;
+        feed(c, &Pkt::Ack { ver, kind: AckKind::Pubrec, id: b2, code: None, props: None }, log)?;
+        Some(PrimedIds { in_q2: 3, in_q1: 4, own_q1: a, own_q2: b, own_q2_recd: b2 })
+    };
+    let close = |c: &mut Box<dyn Conn>, log: &mut Vec<String>| -> Option<()> {
+        let e = c.notify_closed().ok()?;
+        log.push(format!("notify_closed() => {}", evs_short(&e)));
+        Some(())
+    };
     match st {
         Status::D => {
             if persistent {
                 // the last session was persistent
                 handshake(&mut c, true, &mut log)?;
-                let e = c.notify_closed().ok()?;
-                log.push(format!("notify_closed() => {}", evs_short(&e)));
+                if primed {
+                    ids = Some(prime(&mut c, &mut log)?);
+                }
+                close(&mut c, &mut log)?;
             }
         }
-        Status::Cg => handshake(&mut c, false, &mut log)?,
-        Status::Cd => handshake(&mut c, true, &mut log)?,
+        Status::Cg => {
+            if primed {
+                handshake(&mut c, true, &mut log)?;
+                ids = Some(prime(&mut c, &mut log)?);
+                close(&mut c, &mut log)?;
+            }
+            handshake(&mut c, false, &mut log)?
+        }
+        Status::Cd => {
+            handshake(&mut c, true, &mut log)?;
+            if primed {
+                ids = Some(prime(&mut c, &mut log)?);
+            }
+        }
     }
-    Some((c, log))
+    Some((c, log, ids))
 }
 
 /// the 31 send cells: 29 concrete packet kinds with PUBLISH split by QoS
@@ -122,6 +179,19 @@ fn send_cells() -> Vec<(Kind, Ver, u8)> {
         }
     }
     v
+}
+/// the same ack with a failure reason code (v5.0 only): the gating is the same, the bookkeeping is not
+fn negative(p: Pkt) -> Pkt {
+    match p {
+        Pkt::Ack { ver: Ver::V5, kind, id, .. } => {
+            let code = match kind {
+                AckKind::Puback | AckKind::Pubrec => 0x80,
+                AckKind::Pubrel | AckKind::Pubcomp => 0x92,
+            };
+            Pkt::Ack { ver: Ver::V5, kind, id, code: Some(code), props: None }
+        }
+        other => other,
+    }
 }
 fn packet_for(k: Kind, ver: Ver, qos: u8, id: u32) -> Pkt {
     match k {
@@ -258,7 +328,22 @@ pub fn run_c11(ctx: &Ctx) -> Report {
                             }
                             for (k, ver, qos) in cells.iter().copied() {
                                 for via in [Via::Dynamic, Via::Checked, Via::CheckedGeneric] {
-                                    cell(&mut rep, role, as_client, lver, st, persistent, offline, idw, k, ver, qos, via);
+                                    cell(&mut rep, role, as_client, lver, st, persistent, offline, idw, k, ver, qos, via, false, false, false);
+                                }
+                                // the same cell on a session that has something to lose, and acks that carry a failure code
+                                let is_ack = matches!(k, Kind::Puback | Kind::Pubrec | Kind::Pubrel | Kind::Pubcomp);
+                                for neg in [false, true] {
+                                    if neg && !(is_ack && ver == Ver::V5) {
+                                        continue;
+                                    }
+                                    cell(&mut rep, role, as_client, lver, st, persistent, offline, idw, k, ver, qos, Via::Dynamic, true, neg, false);
+                                    if neg {
+                                        cell(&mut rep, role, as_client, lver, st, persistent, offline, idw, k, ver, qos, Via::Dynamic, false, true, false);
+                                    }
+                                }
+                                // a second packet on an id that already carries a stored exchange
+                                if k == Kind::Pubrel || (k == Kind::Publish && qos > 0) {
+                                    cell(&mut rep, role, as_client, lver, st, persistent, offline, idw, k, ver, qos, Via::Dynamic, true, false, true);
                                 }
                             }
                         }
@@ -291,15 +376,29 @@ pub fn run_c11(ctx: &Ctx) -> Report {
 }
 
 #[allow(clippy::too_many_arguments)]
-fn cell(rep: &mut Report, role: Role, as_client: bool, lver: LVer, st: Status, persistent: bool, offline: bool, idw: usize, k: Kind, ver: Ver, qos: u8, via: Via) {
-    let Some((mut c, log)) = build_state(role, idw, lver, as_client, st, persistent, offline) else { return };
-    let Some((mut twin, _)) = build_state(role, idw, lver, as_client, st, persistent, offline) else { return };
-    let name = format!("role={:?}/{} conn={:?} status={:?} persistent={} offline={} idw={} packet={:?}{:?}{} via={:?}", role, if as_client { "client-path" } else { "server-path" }, lver, st, persistent, offline, idw, k, ver, if k == Kind::Publish { format!("q{}", qos) } else { String::new() }, via);
+fn cell(rep: &mut Report, role: Role, as_client: bool, lver: LVer, st: Status, persistent: bool, offline: bool, idw: usize, k: Kind, ver: Ver, qos: u8, via: Via, primed: bool, neg: bool, dup: bool) {
+    let Some((mut c, log, pids)) = build_state_p(role, idw, lver, as_client, st, persistent, offline, primed) else { return };
+    let Some((mut twin, _, pids2)) = build_state_p(role, idw, lver, as_client, st, persistent, offline, primed) else { return };
+    if pids != pids2 {
+        rep.violate(fail("C11", "harness", "prime".into(), format!("priming differs between twins {:?} {:?}", pids, pids2), json!({})));
+        return;
+    }
+    let name = format!("role={:?}/{} conn={:?} status={:?} persistent={} offline={} idw={} packet={:?}{:?}{}{} via={:?}{}", role, if as_client { "client-path" } else { "server-path" }, lver, st, persistent, offline, idw, k, ver, if k == Kind::Publish { format!("q{}", qos) } else { String::new() }, if neg { "(failure code)" } else { "" }, via, if dup { " primed, id of a stored exchange" } else if primed { " primed" } else { "" });
     rep.evaluations += 1;
     rep.distinct_case(name.as_bytes());
     // ids of ours come from acquire so that no cell is refused for an unrelated reason
-    let needs_own_id = matches!(k, Kind::Subscribe | Kind::Unsubscribe | Kind::Pubrel) || (k == Kind::Publish && qos > 0);
-    let id = if needs_own_id {
+    // on a primed session the acks answer the exchanges the priming left open
+    let primed_id = pids.and_then(|p| match k {
+        Kind::Puback => Some(p.in_q1),
+        Kind::Pubrec | Kind::Pubcomp => Some(p.in_q2),
+        Kind::Pubrel => Some(if dup { p.own_q2 } else { p.own_q2_recd }),
+        Kind::Publish if dup => Some(p.own_q1),
+        _ => None,
+    });
+    let needs_own_id = primed_id.is_none() && (matches!(k, Kind::Subscribe | Kind::Unsubscribe | Kind::Pubrel) || (k == Kind::Publish && qos > 0));
+    let id = if let Some(i) = primed_id {
+        i
+    } else if needs_own_id {
         let a = c.acquire().ok().and_then(|r| r.ok());
         let b = twin.acquire().ok().and_then(|r| r.ok());
         if a != b || a.is_none() {
@@ -310,11 +409,11 @@ fn cell(rep: &mut Report, role: Role, as_client: bool, lver: LVer, st: Status, p
     } else {
         1
     };
-    let p = packet_for(k, ver, qos, id);
+    let p = if neg { negative(packet_for(k, ver, qos, id)) } else { packet_for(k, ver, qos, id) };
     let want = expectation(role, lver, st, k, ver, qos, persistent, offline);
     let out = match c.send(&p, via) {
         Err(pn) => {
-            rep.violate(fail("C11", "panic", format!("kind={:?};status={:?}", k, st), format!("{}: send panicked: {}", name, pn.message), json!({"prefix": log})));
+            rep.violate(fail("C11", "panic", format!("kind={:?};status={:?}{}", k, st, if dup { ";busy_id" } else { "" }), format!("{}: send panicked: {}", name, pn.message), json!({"prefix": log})));
             return;
         }
         Ok(o) => o,
@@ -345,6 +444,8 @@ fn cell(rep: &mut Report, role: Role, as_client: bool, lver: LVer, st: Status, p
     let got = if !sends.is_empty() { "PASS" } else if has_err { "REFUSED" } else { "QUEUED" };
     rep.hit("G1-outcome-equals-gating-table");
     let ok = match want {
+        // (a second packet on a busy id may be refused for that reason where the table lets the kind pass)
+        Expect::Pass if dup && has_err => sends.is_empty(),
         Expect::Pass => !has_err && sends.first().map(|s| s.kind() == k).unwrap_or(false),
         Expect::Refused => has_err && sends.is_empty(),
         Expect::QueuedOrRefused => sends.is_empty(),
@@ -372,9 +473,12 @@ fn cell(rep: &mut Report, role: Role, as_client: bool, lver: LVer, st: Status, p
         for e in &evs {
             match e {
                 Ev::Error(_) => {}
-                Ev::Released(i) if needs_own_id && *i == id => released = true,
+                // (on a busy id too: C11 and C08 let a refused send release "the packet's identifier"; that this
+                // takes the id away from the stored exchange is C06's concern and arises only from application
+                // misuse - left unjudged, DESIGN section 9)
+                Ev::Released(i) if (needs_own_id || dup) && *i == id => released = true,
                 other => {
-                    rep.violate(fail("C11", "G3-refused-call-leaves-no-trace", format!("kind={:?};status={:?};extra_event=1", k, st), format!("{}: a refused send returned {}", name, other.short()), witness.clone()));
+                    rep.violate(fail("C11", "G3-refused-call-leaves-no-trace", format!("kind={:?};status={:?};extra_event=1{}", k, st, if dup { ";busy_id" } else { "" }), format!("{}: a refused send returned {}", name, other.short()), witness.clone()));
                     return;
                 }
             }
@@ -386,14 +490,14 @@ fn cell(rep: &mut Report, role: Role, as_client: bool, lver: LVer, st: Status, p
         let db = twin.digest();
         // (when the refusal kept the id - recorded C08 findings - the twins agree as well: both hold it)
         if da != db {
-            rep.violate(fail("C11", "G3-refused-call-leaves-no-trace", format!("kind={:?};ver={:?};status={:?};how=digest", k, ver, st), format!("{}: after the refused call the object differs from one that never made the call:\n  with call   : {}\n  without call: {}", name, da.unwrap_or_default(), db.unwrap_or_default()), witness.clone()));
+            rep.violate(fail("C11", "G3-refused-call-leaves-no-trace", format!("kind={:?};ver={:?};status={:?};how=digest{}{}{}", k, ver, st, if primed { ";primed" } else { "" }, if neg { ";failure_code" } else { "" }, if dup { ";busy_id" } else { "" }), format!("{}: after the refused call the object differs from one that never made the call:\n  with call   : {}\n  without call: {}", name, da.unwrap_or_default(), db.unwrap_or_default()), witness.clone()));
             return;
         }
         let ta = continuation(&mut c, idw, lver.to_ver(), as_client, st);
         let tb = continuation(&mut twin, idw, lver.to_ver(), as_client, st);
         if ta != tb {
             let i = ta.iter().zip(tb.iter()).position(|(a, b)| a != b).unwrap_or(0);
-            rep.violate(fail("C11", "G3-refused-call-leaves-no-trace", format!("kind={:?};ver={:?};status={:?};how=continuation", k, ver, st), format!("{}: continuation differs at step {}: with call `{}` / without `{}`", name, i, ta.get(i).cloned().unwrap_or_default(), tb.get(i).cloned().unwrap_or_default()), witness));
+            rep.violate(fail("C11", "G3-refused-call-leaves-no-trace", format!("kind={:?};ver={:?};status={:?};how=continuation{}{}{}", k, ver, st, if primed { ";primed" } else { "" }, if neg { ";failure_code" } else { "" }, if dup { ";busy_id" } else { "" }), format!("{}: continuation differs at step {}: with call `{}` / without `{}`", name, i, ta.get(i).cloned().unwrap_or_default(), tb.get(i).cloned().unwrap_or_default()), witness));
         }
     }
     if rep.samples.len() < 4 && rep.evaluations % 4001 == 0 {
@@ -502,6 +606,71 @@ pub fn run_c17(ctx: &Ctx) -> Report {
                                 rep.count("cells_receivable");
                             }
                         }
+                    }
+                }
+            }
+        }
+    }
+    // H2 over the handshake packet's own contents: whatever a second CONNACK / CONNECT says (reason code, session
+    // present, clean start, properties that would re-negotiate limits), it is an error, is not delivered, and the
+    // session is left alone
+    for (role, as_client) in paths {
+        for ver in [Ver::V311, Ver::V5] {
+            for idw in [2usize, 4] {
+                let mut variants: Vec<Pkt> = Vec::new();
+                if as_client {
+                    let codes: Vec<u8> = if ver == Ver::V311 { (0..=5).collect() } else { vec![0x00, 0x80, 0x81, 0x82, 0x83, 0x84, 0x85, 0x86, 0x87, 0x88, 0x89, 0x8A, 0x8C, 0x90, 0x95, 0x97, 0x99, 0x9A, 0x9B, 0x9C, 0x9D, 0x9F] };
+                    let prop_sets: Vec<Vec<Prop>> = if ver == Ver::V5 { vec![vec![], vec![p_u16(33, 1)], vec![p_u16(34, 3)], vec![p_u16(19, 7)], vec![p_u32(39, 20)], vec![p_u32(P_SEI, 0)], vec![p_str(18, "x")]] } else { vec![vec![]] };
+                    for code in codes {
+                        for sp in [false, true] {
+                            for props in prop_sets.iter() {
+                                variants.push(Pkt::Connack { ver, sp, code, props: props.clone() });
+                            }
+                        }
+                    }
+                } else {
+                    let prop_sets: Vec<Vec<Prop>> = if ver == Ver::V5 { vec![vec![], vec![p_u16(33, 1)], vec![p_u16(34, 3)], vec![p_u32(39, 20)], vec![p_u32(P_SEI, 0)], vec![p_u32(P_SEI, 100)]] } else { vec![vec![]] };
+                    for clean in [false, true] {
+                        for keep_alive in [0u16, 1, 60] {
+                            for props in prop_sets.iter() {
+                                for cid in ["c", "other", ""] {
+                                    if cid.is_empty() && !clean && ver == Ver::V311 {
+                                        continue;
+                                    }
+                                    variants.push(Pkt::Connect { ver, clean, keep_alive, client_id: cid.as_bytes().to_vec(), will: None, user: None, pass: None, props: props.clone() });
+                                }
+                            }
+                        }
+                    }
+                }
+                for v in variants {
+                    let Some((mut c, log)) = primed(role, idw, ver, as_client, Status::Cd) else { continue };
+                    let frame = rc::encode(&v, idw);
+                    let name = format!("role={:?}/{} ver={:?} status=Cd second handshake packet {} idw={}", role, if as_client { "client-path" } else { "server-path" }, ver, v.short(), idw);
+                    rep.evaluations += 1;
+                    rep.distinct_case(name.as_bytes());
+                    let before = session_view(&mut c);
+                    let (evs, n) = match c.recv(&frame) {
+                        Ok(x) => x,
+                        Err(pn) => {
+                            rep.violate(fail("C17", "panic", "second-handshake".into(), format!("{}: recv panicked: {}", name, pn.message), json!({"prefix": log})));
+                            continue;
+                        }
+                    };
+                    let rule = "H2-connect-connack-on-established-connection";
+                    rep.hit(rule);
+                    let witness = json!({"cell": name, "prefix": log, "frame_hex": frame.iter().map(|b| format!("{:02x}", b)).collect::<String>(), "events": evs_short(&evs), "consumed": n});
+                    let has_err = evs.iter().any(|e| e.is_error());
+                    let delivered = evs.iter().any(|e| matches!(e, Ev::Recv { .. }));
+                    let after = session_view(&mut c);
+                    let code_class = match &v {
+                        Pkt::Connack { code, .. } => if *code == 0 { "success" } else { "failure" },
+                        _ => "connect",
+                    };
+                    if !has_err || delivered {
+                        rep.violate(fail("C17", rule, format!("role={:?};ver={:?};variant={};err={};delivered={}", role, ver, code_class, has_err, delivered), format!("{}: events {}", name, evs_short(&evs)), witness));
+                    } else if before != after {
+                        rep.violate(fail("C17", rule, format!("role={:?};ver={:?};variant={};session_changed=1", role, ver, code_class), format!("{}: session state changed: {} -> {}", name, before, after), witness));
                     }
                 }
             }
@@ -668,7 +837,7 @@ pub fn run_c17(ctx: &Ctx) -> Report {
     rep.assumptions.push("receive-gating table = DESIGN Appendix B".into());
     let _ = BTreeSet::<u8>::new();
     if ctx.replay.is_none() {
-        rep.require_hits(&[("H1-never-sendable-kind-is-protocol-error", 300), ("H2-connect-connack-on-established-connection", 8), ("H3-undetermined-adopts-version-from-first-connect", 8), ("H5-undetermined-trace-equals-fixed-version", 1000)]);
+        rep.require_hits(&[("H1-never-sendable-kind-is-protocol-error", 300), ("H2-connect-connack-on-established-connection", 500), ("H3-undetermined-adopts-version-from-first-connect", 8), ("H5-undetermined-trace-equals-fixed-version", 1000)]);
     }
     rep
 }
